@@ -16,6 +16,15 @@ def showNacl (spare dstLen : Nat) (r : C10.OpenRes) : String :=
   | .fail => s!"fail z={toHex (spareAfterNacl spare fill dstLen r)}"
   | .panic => "panic"
 
+/-- in-place Open (`dst` is the prefix of one buffer, the input follows it directly): the observable `z` is the
+    input region afterwards — on failure the `n = |ct|-16` bytes handed out are zero and the tag bytes untouched
+    (nothing is touched for inputs shorter than a tag); on success the plaintext followed by the tag bytes -/
+def showResInPlace (dstLen : Nat) (ct : Bytes) (r : Res) : String :=
+  match r with
+  | .ok ret => s!"ok {toHex ret} z={toHex (ret.drop dstLen ++ ct.drop (ret.length - dstLen))}"
+  | .err out => s!"err z={toHex (out ++ ct.drop out.length)}"
+  | .panic => "panic"
+
 def isOk : Res → Bool
   | .ok _ => true
   | _ => false
@@ -45,7 +54,9 @@ def handle1 (line : String) : String :=
       | some x, some key, some nonce, some ad, some ct =>
         if x > 1 || key.length != 32 then "bad-op" else
         let op := fun (key nonce ct ad : Bytes) => if x == 1 then xaeadOpen key nonce dst ct ad else aeadOpen key nonce dst ct ad
-        if o.cmd == "open" then showRes spare dst.length (op key nonce ct ad)
+        if o.cmd == "open" then
+          (if o.get? "place" == some "inplace" then showResInPlace dst.length ct (op key nonce ct ad)
+           else showRes spare dst.length (op key nonce ct ad))
         else
           let acc := accepted "c" ct (fun c => isOk (op key nonce c ad)) ++
                      accepted "n" nonce (fun n => isOk (op key n ct ad)) ++
